@@ -321,15 +321,29 @@ def head_patch_guard(ctx, repo):
     m = repo.mod("ttLib/sfnt.py")
     f = m.func("SFNTWriter.writeMasterChecksum")
     g = CFG(f.node)
-    seeks = [c for c in ast.walk(f.node) if isinstance(c, ast.Call) and isinstance(c.func, ast.Attribute) and c.func.attr == "seek" and "offset + 8" in norm(c)]
+    from ..consteval import cnorm
+    from ..core import inline_locals
+
+    seeks = [c for c in ast.walk(f.node) if isinstance(c, ast.Call) and isinstance(c.func, ast.Attribute) and c.func.attr == "seek" and c.args and "offset + 8" in cnorm(inline_locals(f.node, c.args[0]), __import__("sa.consteval", fromlist=["_default_env"])._default_env(f.node))]
     if not seeks:
         raise AnalysisError("SFNTWriter.writeMasterChecksum: seek to head.offset + 8 not found")
     for sk in seeks:
         # a dominating `if <head>.length < 12: return/raise`
-        guards = [n for n in walk_no_nested(f.node) if isinstance(n, ast.If) and "length" in norm(n.test) and any(isinstance(x, (ast.Return, ast.Raise)) for x in n.body)]
-        ok = any(g.dominates(g.id_of(gd), g.id_of(sk)) and ("< 12" in norm(gd.test) or "<= 11" in norm(gd.test)) for gd in guards)
-        pos = any(("length >= 12" in norm(t) or "length > 11" in norm(t)) and pol for t, pol in guard_conditions(sk))
-        ctx.ob("HEAD-patch", f.where, f"{norm(sk)} is reached only when head.length >= 12", ok or pos, "" if ok or pos else "a head table shorter than 12 bytes makes the 4-byte write clobber the table stored after it")
+        from ..cfg import implied_conditions
+
+        conds = implied_conditions(g, sk)
+        env = __import__("sa.consteval", fromlist=["_default_env"])._default_env(f.node)
+        ok = False
+        for text, pol in conds:
+            try:
+                t = ast.parse(text, mode="eval").body
+            except SyntaxError:
+                continue
+            ct = cnorm(inline_locals(f.node, t), env)
+            if "length" in ct and ((("< 12" in ct or "<= 11" in ct) and not pol) or ((">= 12" in ct or "> 11" in ct) and pol)):
+                ok = True
+        pos = False
+        ctx.ob("HEAD-patch", f.where, f"{cnorm(inline_locals(f.node, sk.args[0]), env)} is reached only when head.length >= 12", ok or pos, "" if ok or pos else "a head table shorter than 12 bytes makes the 4-byte write clobber the table stored after it")
 
 
 def tagid_discriminator(ctx, repo):
